@@ -9,14 +9,24 @@
 (* queries, input batches and fold phases.  Each event (one run of a kind) *)
 (* is one step of the automaton; optional items are skipped silently.      *)
 (* Events: {"ev":"begin","vec":"pub"|"priv","zk":..,"prep":..,"lookups":..,*)
-(*          "pubvals":..,"batch":..}  {"ev":"run","kind":k,"n":count}      *)
-(*          {"ev":"end"}                                                   *)
+(*          "pubvals":..,"roots":2^cap height,"digest":digest width}       *)
+(*          {"ev":"run","kind":k,"n":count}  {"ev":"end"}                  *)
+(* A commitment of a full-height tree is a Merkle cap of `roots` digests:  *)
+(* its run is exactly roots * digest words (MerkleCapTargets::new /        *)
+(* get_values); the FRI commit-phase caps shrink with the folded trees, so *)
+(* their run is a positive multiple of the digest width.                   *)
 (***************************************************************************)
 EXTENDS Integers, Sequences, FiniteSets, TLC, Json, IOUtils, PackingOrder
 
 Rec == ndJsonDeserialize(IOEnv.TRACE)
 VARIABLES l, vec, feat, pos
 tvars == <<l, vec, feat, pos>>
+FullCaps == {"trace_commitment_word", "permutation_commitment_word", "quotient_commitment_word", "random_commitment_word",
+             "common_preprocessed_commitment_word"}
+RunLenOk(f, k, n) ==
+    CASE k \in FullCaps -> n = f.roots * f.digest
+      [] k = "fri_commit_phase_word" -> n > 0 /\ n % f.digest = 0
+      [] OTHER -> n > 0
 
 \* an item is needed "always", "never", or "maybe" (per-instance options), given the features of the configuration
 It(k, need) == [k |-> k, need |-> need]
@@ -59,15 +69,17 @@ Reach(i) ==
         s6 == StepSkip(s5)
     IN s6
 
-TraceInit == l = 1 /\ vec = "none" /\ feat = [zk |-> FALSE, prep |-> FALSE, lookups |-> FALSE, pubvals |-> FALSE] /\ pos = 0
+TraceInit == l = 1 /\ vec = "none" /\ feat = [zk |-> FALSE, prep |-> FALSE, lookups |-> FALSE, pubvals |-> FALSE, roots |-> 1, digest |-> 8] /\ pos = 0
 IsEvent(e) == l <= Len(Rec) /\ Rec[l].ev = e /\ l' = l + 1
 
 Begin == /\ IsEvent("begin") /\ vec = "none"
          /\ vec' = Rec[l].vec
-         /\ feat' = [zk |-> Rec[l].zk, prep |-> Rec[l].prep, lookups |-> Rec[l].lookups, pubvals |-> Rec[l].pubvals]
+         /\ feat' = [zk |-> Rec[l].zk, prep |-> Rec[l].prep, lookups |-> Rec[l].lookups, pubvals |-> Rec[l].pubvals,
+                    roots |-> Rec[l].roots, digest |-> Rec[l].digest]
          /\ pos' = 0
 Run == /\ IsEvent("run") /\ vec # "none"
        /\ \E j \in Reach(pos) : j < End /\ Prog[j].k = Rec[l].kind /\ Prog[j].need # "never" /\ pos' = j
+       /\ RunLenOk(feat, Rec[l].kind, Rec[l].n)
        /\ UNCHANGED <<vec, feat>>
 Finish == /\ IsEvent("end") /\ vec # "none"
           /\ End \in Reach(pos)
